@@ -100,6 +100,37 @@ func (li *LockInfo) HeldBefore(ins ssa.Instruction) map[string]MutexState {
 	return li.before[ins]
 }
 
+// deferredClosureUnlocks: `defer func() { mu.Unlock() }()` — the unlock calls found in the body of a
+// deferred function literal, attributed to the defer statement. Only mutexes that the literal
+// names directly (package-level variables) are recognised.
+func deferredClosureUnlocks(ins ssa.Instruction) []LockOp {
+	d, ok := ins.(*ssa.Defer)
+	if !ok {
+		return nil
+	}
+	var fn *ssa.Function
+	switch v := d.Call.Value.(type) {
+	case *ssa.Function:
+		fn = v
+	case *ssa.MakeClosure:
+		fn, _ = v.Fn.(*ssa.Function)
+	}
+	if fn == nil || fn.Parent() == nil {
+		return nil
+	}
+	var out []LockOp
+	for _, b := range fn.Blocks {
+		for _, in := range b.Instrs {
+			if op, ok := lockOpOf(in); ok && !op.Deferred && (op.Op == "Unlock" || op.Op == "RUnlock") && len(op.Mutex) > 2 && op.Mutex[:2] == "G:" {
+				op.Instr = ins
+				op.Deferred = true
+				out = append(out, op)
+			}
+		}
+	}
+	return out
+}
+
 // lockOpOf recognises calls of the sync mutex methods.
 func lockOpOf(ins ssa.Instruction) (LockOp, bool) {
 	ci, ok := ins.(ssa.CallInstruction)
@@ -147,6 +178,14 @@ func Locks(fn *ssa.Function) *LockInfo {
 		for _, ins := range b.Instrs {
 			if record {
 				li.before[ins] = s.copy()
+			}
+			if dops := deferredClosureUnlocks(ins); len(dops) > 0 {
+				for _, op := range dops {
+					cur := s[op.Mutex]
+					cur.Deferred = true
+					s[op.Mutex] = cur
+				}
+				continue
 			}
 			if op, ok := lockOpOf(ins); ok {
 				cur := s[op.Mutex]
@@ -221,7 +260,9 @@ func Locks(fn *ssa.Function) *LockInfo {
 	}
 	for _, b := range fn.Blocks {
 		for _, ins := range b.Instrs {
-			if op, ok := lockOpOf(ins); ok {
+			if dops := deferredClosureUnlocks(ins); len(dops) > 0 {
+				li.Ops = append(li.Ops, dops...)
+			} else if op, ok := lockOpOf(ins); ok {
 				li.Ops = append(li.Ops, op)
 			}
 		}
